@@ -17,6 +17,7 @@ Record case := {
   c_if_ty : list (N * N);
   c_anc : list (N * list N);
   c_tau : list (N * N);                  (* variable id -> user type id *)
+  c_empty : list N;                      (* user types without objects, when the simplifier was given the problem *)
   c_stat : list (N * list expr * expr);
   c_itab : list (N * list expr * expr);
   c_e : expr;
@@ -37,6 +38,7 @@ Definition cfg_of (c : case) : cfg :=
      fl_ty := fun f => lookupN f (c_fl_ty c);
      if_ty := fun f => lookupN f (c_if_ty c);
      anc := fun t => match lookupN t (c_anc c) with Some l => l | None => [] end;
+     empty_ty := fun t => memN t (c_empty c);
      stat := fun f args => lookup_tab f args (c_stat c);
      itab := fun f args => lookup_tab f args (c_itab c) |}.
 
